@@ -90,6 +90,7 @@ impl Drop for PSeed {
 pub struct TVal {
     magic: u64,
     id: u64,
+    #[allow(dead_code)]
     step: u32,
 }
 impl TVal {
@@ -364,9 +365,9 @@ fn outcome_sig(steps: &[u8], dtor_panics: bool) -> (Option<usize>, Vec<u8>, bool
 
 fn max_len(args: &Args) -> usize {
     if args.thorough() {
-        6
+        7
     } else {
-        4
+        5
     }
 }
 
